@@ -2,7 +2,7 @@
 
 sched-pre: a real SFTPClient/SFTPServer pair (vmc.sftp_pair) with three kinds of virtual threads - the
 caller, the SFTPFile prefetch thread(s), the server loop.  For every scenario (file size x server read
-policy x max_concurrent_requests x program) every schedule within a preemption bound is executed; each
+policy x max_concurrent_requests x program) every schedule within a deviation (delay) bound is executed; each
 read()/readv() result is compared with the served file's bytes; a scheduler deadlock / horizon overrun
 while a call is in progress is a violation (the call never returns).
 """
@@ -14,18 +14,19 @@ from vmc import core, explore, enum, sched as S, sftp_pair as SP
 PID = "C28"
 META = {
     "level": "exploration",
-    "technique": "stateless schedule exploration (preemption-bounded) of caller / prefetch thread / server on a "
-                 "real SFTPClient-SFTPServer pair, bounded-exhaustive programs and chunk lists",
+    "technique": "stateless schedule exploration (delay-bounded) of caller / prefetch thread / server on a real "
+                 "SFTPClient-SFTPServer pair, bounded-exhaustive programs and chunk lists",
     "text": "File sizes {0,9,24} (quick) / {0,1,7,8,9,24,30} (thorough) with MAX_REQUEST_SIZE=8; server read policy "
             "{full, at most 3 bytes} (+ at most 1 byte, k-th read short in thorough); max_concurrent_requests "
             "{None,1} (+2,3 thorough).  Programs: prefetch() then every sequence of <=2 (quick) / <=3 (thorough) "
-            "steps over read(1|5|8|20), seek(0|3|8|25|40); readv() of every list of <=2 chunks over offsets "
-            "{0,3,8,20,29,35} x lengths {1,5,8,12} (overlapping, unordered, beyond EOF), alone and after "
-            "prefetch() [+ one read/seek step]; thorough adds 3-chunk lists on a sub-grid.  Every schedule with "
-            "<=1 (quick) / <=2 (thorough, small programs) preemptions; bytes compared with the served file; "
-            "deadlock/livelock of a call = violation.",
-    "note": "atomicity = synchronisation/socket operations; the spin-wait in SFTPFile._async_response is given a "
-            "fair lock (a spinning thread yields); virtual time; server honest apart from short reads",
+            "steps over read(1|5|8|20), seek(0|3|8|25|40); readv() of every single chunk and every pair over offsets "
+            "{0,3,8,20,29,35} x lengths {1,5,8,12} (quick pairs: lengths {5,12}; overlapping, unordered, beyond EOF), "
+            "alone and after prefetch() [+ one step, or seek+read]; thorough adds 3-chunk lists and 2-chunk lists "
+            "after prefetch on a sub-grid.  Every schedule within 1 scheduling deviation (2 for the small programs "
+            "in thorough); bytes compared with the served file; deadlock/livelock of a call = violation.",
+    "note": "delay bounding: every departure from the deterministic default schedule costs 1; atomicity = "
+            "synchronisation/socket operations; the spin-wait in SFTPFile._async_response is given a fair lock (a "
+            "spinning thread yields); virtual time; server honest apart from short reads",
     "design_ref": "4/C28",
 }
 NAME = "f"
@@ -47,10 +48,11 @@ def steps():
     return [("read", n) for n in READS] + [("seek", o) for o in SEEKS]
 
 
-def pre_steps():
+def pre_steps(quick=False):
     """What may happen between prefetch() and readv(): nothing, one step, or seek(o)+read(n)."""
     one = [(st,) for st in steps()]
-    two = [(("seek", o), ("read", n)) for o in SEEKS for n in READS]
+    two = [(("seek", o), ("read", n)) for o in ((0, 8, 25) if quick else SEEKS)
+           for n in ((1, 8, 20) if quick else READS)]
     return [()] + one + two
 
 
@@ -79,7 +81,7 @@ def scenarios(tier):
                     add(size, pol, None, [("readv", tuple(lst))])
                 if size == 0:
                     continue
-                for pre in pre_steps():
+                for pre in pre_steps(True):
                     for ch in chunks12:
                         add(size, pol, None, [("prefetch",)] + list(pre) + [("readv", (ch,))])
                 for pre in [(), (("read", 5),), (("read", 20),)]:
@@ -109,6 +111,11 @@ def scenarios(tier):
                 for pre in pre_steps():
                     for ch in chunks:
                         add(size, pol, mc, [("prefetch",)] + list(pre) + [("readv", (ch,))])
+    for size in (9, 24):
+        for pol in (("full",), ("max", 3)):
+            for pre in [(), (("read", 5),), (("read", 20),)]:
+                for ch in chunks:
+                    add(size, pol, 1, [("prefetch",)] + list(pre) + [("readv", (ch,))])
     sub = [(o, n) for o in (0, 8, 20, 29) for n in (5, 12)]
     for size in (9, 30):
         for pol in (("full",), ("max", 3)):
@@ -343,8 +350,9 @@ def main(tier):
     ck = core.Check(
         PID, tier, "exploration",
         "scenario = file size x server read policy x max_concurrent_requests x program (prefetch/read/seek/readv); "
-        "every schedule of caller, prefetch thread(s) and server with <= k preemptions (k=1; 2 for the small "
-        "programs in thorough) at synchronisation/socket-operation granularity; nontrivial = distinct (scenario, "
+        "every schedule of caller, prefetch thread(s) and server with <= k departures from the deterministic "
+        "default schedule (delay bounding, k=1; 2 for the small programs in thorough) at synchronisation/socket-"
+        "operation granularity; nontrivial = distinct (scenario, "
         "schedule) in which a read()/readv() started while the prefetch machinery was active",
         ["SFTPFile.MAX_REQUEST_SIZE = 8 (class-level configuration)",
          "atomicity granularity = lock/condition/event/socket operations (no line-level preemption)",
@@ -357,7 +365,7 @@ def main(tier):
     ck.merge(core.pmap(items, run_scn))
     if any("cap of" in n for n in ck.acc.notes):
         ck.cap_hit("execution cap per scenario")
-    ck.extra["bound"] = {"scenarios": len(scns), "max_preemptions": 1 if tier == "quick" else 2}
+    ck.extra["bound"] = {"scenarios": len(scns), "bounding": "delay", "max_deviations": 1 if tier == "quick" else 2}
     SP.remove_scratch()
     return ck.finish()
 
